@@ -247,7 +247,7 @@ def api_psf_photometry(sc, D, E, U=None):
     ph = PSFPhotometry(CircularGaussianPRF(fwhm=3.0), (7, 7), aperture_radius=4, progress_bar=False, localbkg_estimator=LocalBackground(6, 10))
     t = ph(D, error=E, mask=sc['mask'], init_params=Table({'x': [p[0] for p in sc['pos']], 'y': [p[1] for p in sc['pos']]}))
     return {'plain:x_fit': t['x_fit'], 'plain:y_fit': t['y_fit'], 'flux:flux_fit': t['flux_fit'], 'flux:flux_err': t['flux_err'],
-            'flux:local_bkg': t['local_bkg']}
+            'flux:local_bkg': t['local_bkg'], 'flux:residual': ph.make_residual_image(D, psf_shape=(7, 7))}
 
 
 def api_data_properties(sc, D, E, U=None):
@@ -391,6 +391,20 @@ def sweep(rep, r, nscenes):
                 except Exception as e:                          # noqa: BLE001
                     rep.violation(f'representation-raises:{name}:nddata:{type(e).__name__}', f'{name} raises {e!r} for an NDData input',
                                   dict(rp, representation='nddata'))
+                if name == 'PSFPhotometry' and integral and np.isfinite(sc['data']).all():
+                    # an NDData whose data array is an integer array (the residual image must not be truncated to integers)
+                    rep.case((name, 'nddata-int', sc['data'].tobytes()), True, kind=f'{name}:nddata-int64')
+                    rep.probe_only += 1
+                    try:
+                        got = call(nd_variant(name), sc, NDData(sc['data'].astype(np.int64), uncertainty=StdDevUncertainty(rep_f64(sc['error'])), mask=sc['mask']), None)
+                        for kk, bv in base.items():
+                            if kk in got and not close(bv, num(got[kk]), 1e-10):
+                                rep.violation(f'representation-differs:{name}:nddata-int64:{kk.split(":")[1]}', f'{name} [{kk}] differs for an NDData holding an integer array',
+                                              dict(rp, representation='nddata-int64'))
+                                break
+                    except Exception as e:                      # noqa: BLE001
+                        rep.violation(f'representation-raises:{name}:nddata-int64:{type(e).__name__}', f'{name} raises {e!r} for an NDData holding an integer array',
+                                      dict(rp, representation='nddata-int64'))
                 if name == 'PSFPhotometry':
                     # the same errors stored as variances / inverse variances (PSFPhotometry converts every NDUncertainty kind)
                     from astropy.nddata import InverseVariance, VarianceUncertainty
@@ -474,6 +488,61 @@ def extreme_scale_float32(rep, r, n):
                     break
 
 
+def psf_init_units(rep, r, n):
+    """PSFPhotometry with Quantity data and init_params columns (flux, local_bkg) given in the data unit, in an equivalent unit with the
+    numbers converted, and without any units on plain data: the fitted values describe the same physical quantities"""
+    import astropy.units as u
+    from astropy.table import QTable, Table
+    from photutils.psf import CircularGaussianPRF, PSFPhotometry
+    for k in range(n):
+        sc = make_scene(r, False)
+        xs, ys = [p[0] for p in sc['pos']], [p[1] for p in sc['pos']]
+        fl = [float(r.choice([300.0, 650.0, 1200.0])) for _ in xs]
+        lb = [float(r.choice([9.0, 10.0, 11.5])) for _ in xs]
+        base_u, other, fac = [(u.Jy, u.mJy, 1000.0), (u.electron / u.s, u.electron / u.h, 3600.0), (u.nJy, u.uJy, 1e-3)][k % 3]
+        model = CircularGaussianPRF(fwhm=3.0)
+        if k % 2 == 1:
+            model.flux.fixed = True                              # forced photometry: the initial flux IS the result
+        ph = PSFPhotometry(model, (7, 7), aperture_radius=4, progress_bar=False)
+        rp = {'api': 'PSFPhotometry.init_params-units', 'data': sc['data'].tolist(), 'error': sc['error'].tolist(), 'x': xs, 'y': ys, 'flux': fl,
+              'local_bkg': lb, 'data_unit': str(base_u), 'column_unit': str(other), 'flux_fixed': bool(k % 2)}
+        res = {}
+        try:
+            with warnings.catch_warnings():
+                warnings.simplefilter('ignore')
+                res['plain'] = ph(sc['data'], error=sc['error'], init_params=Table({'x': xs, 'y': ys, 'flux': fl, 'local_bkg': lb}))
+                res['same'] = ph(sc['data'] * base_u, error=sc['error'] * base_u,
+                                 init_params=QTable({'x': xs, 'y': ys, 'flux': fl * base_u, 'local_bkg': lb * base_u}))
+                res['equiv'] = ph(sc['data'] * base_u, error=sc['error'] * base_u,
+                                  init_params=QTable({'x': xs, 'y': ys, 'flux': (np.array(fl) * fac) * other, 'local_bkg': (np.array(lb) * fac) * other}))
+        except Exception as e:                                  # noqa: BLE001
+            rep.violation(f'representation-raises:PSFPhotometry:init-units:{type(e).__name__}', f'PSFPhotometry with Quantity init_params raises {e!r}', rp)
+            continue
+        rep.case(('psf-init-units', sc['data'].tobytes(), k), True, kind='PSFPhotometry:init-units')
+        rep.probe_only += 1
+        bad = None
+        for col in ('x_fit', 'y_fit', 'flux_fit', 'flux_init', 'local_bkg', 'flux_err'):
+            b = num(res['plain'][col])
+            for nm in ('same', 'equiv'):
+                v = res[nm][col]
+                if col in ('flux_fit', 'flux_init', 'local_bkg', 'flux_err'):
+                    if unit_of(v) is None or not unit_of(v).is_equivalent(base_u):
+                        bad = (col, nm, 'unit')
+                        break
+                    g = np.asarray(u.Quantity(v).to_value(base_u), float)
+                else:
+                    g = num(v)
+                with np.errstate(invalid='ignore'):
+                    if not (b.shape == g.shape and np.all(np.isclose(b, g, rtol=1e-6, atol=1e-6, equal_nan=True))):
+                        bad = (col, nm, 'value')
+                        break
+            if bad:
+                break
+        if bad:
+            rep.violation(f'psf-init-units:{bad[2]}:{bad[0]}', f'PSFPhotometry: {bad[0]} differs ({bad[2]}) between unit-less inputs and Quantity inputs with '
+                          f'init_params columns in {"the data unit" if bad[1] == "same" else "an equivalent unit (" + str(other) + " for data in " + str(base_u) + ")"}', rp)
+
+
 def nd_variant(name):
     def ap(sc, nd, _E, U=None):
         from photutils.aperture import CircularAperture, EllipticalAnnulus, aperture_photometry
@@ -505,7 +574,9 @@ def nd_variant(name):
         from photutils.background import LocalBackground
         ph = PSFPhotometry(CircularGaussianPRF(fwhm=3.0), (7, 7), aperture_radius=4, progress_bar=False, localbkg_estimator=LocalBackground(6, 10))
         t = ph(nd, init_params=Table({'x': [p[0] for p in sc['pos']], 'y': [p[1] for p in sc['pos']]}))
-        return {'plain:x_fit': t['x_fit'], 'plain:y_fit': t['y_fit'], 'flux:flux_fit': t['flux_fit'], 'flux:flux_err': t['flux_err']}
+        res = ph.make_residual_image(nd, psf_shape=(7, 7))
+        resq = res.data if res.unit is None else res.data * res.unit
+        return {'plain:x_fit': t['x_fit'], 'plain:y_fit': t['y_fit'], 'flux:flux_fit': t['flux_fit'], 'flux:flux_err': t['flux_err'], 'flux:residual': resq}
     return {'aperture_photometry': ap, 'ApertureStats': st, 'Background2D': bk, 'detect_threshold': dt, 'PSFPhotometry': ps}[name]
 
 
@@ -593,6 +664,7 @@ def run(rep, tier):
     units_correspondence(rep, r, 120 * scale)
     sweep(rep, r, 4 * scale)
     extreme_scale_float32(rep, r, 3 * scale)
+    psf_init_units(rep, r, 3 * scale)
 
 
 def replay(rep, data):
